@@ -4,7 +4,7 @@
 # pass), then with patch.diff applied (compiler rebuilt when the patch touches anything outside runtime/) (must fail).
 # Needs /tmp/llgo-tools (build-llgo.sh, run-llgo.sh: the sandbox recipe for running llgo on LLVM 14).
 D=$(readlink -f "${1:?seed dir}"); WT=${2:?worktree}
-git -C "$WT" checkout -q -- . ; git -C "$WT" clean -fdq
+git -C "$WT" reset -q --hard; git -C "$WT" clean -fdq
 T=$(mktemp -d /tmp/confirmllgo-XXXXXX); trap 'rm -rf "$T"' EXIT
 /tmp/llgo-tools/build-llgo.sh "$WT" "$T/llgo-clean" >/dev/null 2>&1 || { echo "cannot build llgo from the clean worktree"; exit 2; }
 echo "--- unchanged:"; bash "$D/demo/run.sh" "$T/llgo-clean" "$WT" 2>&1 | tail -${TAILN:-5}; rc0=${PIPESTATUS[0]}
@@ -16,5 +16,5 @@ if git -C "$WT" diff --name-only | grep -qv '^runtime/'; then
   LL="$T/llgo-changed"
 fi
 echo "--- with the change:"; bash "$D/demo/run.sh" "$LL" "$WT" 2>&1 | tail -${TAILN:-5}; rc1=${PIPESTATUS[0]}
-git -C "$WT" checkout -q -- . ; git -C "$WT" clean -fdq
+git -C "$WT" reset -q --hard; git -C "$WT" clean -fdq
 echo "=== $(basename "$D"): unchanged rc=$rc0, changed rc=$rc1"
